@@ -1002,6 +1002,31 @@ def c17(ctx):
                 out.append(ok(R, key, 'the thread table is unlocked only after `threads.len() > max_threads` was found false; pops under the lock, joins outside it', fn=dp.name))
             else:
                 out.append(bad(R, key, 'despawn can release the thread table while it still holds more than max_threads threads (no exact `threads.len() > max_threads` test guards the exit)', fn=dp.name))
+    # every thread taken out of the table ends up in the collection that is joined (or is joined on the spot): a popped thread whose handle
+    # is dropped is detached, it keeps running jobs after despawn has returned and is no longer counted
+    if dp:
+        key = 'despawn|every-popped-thread-is-kept-for-joining'
+        pops_ = [(bb, t) for bb, t in calls(dp, 'alloc::vec::Vec::pop')]
+        keeps_ = set(bb for bb, t in dp.calls() if (t['func'].get('fn') or '').endswith(('::Vec::push', 'JoinHandle::join', '::Vec::extend', '::VecDeque::push_back'))
+                     and any(h in ' '.join(clean_ty(a['pl']['ty']) for a in t['args'] if a['k'] != 'const') for h in ('JoinHandle', 'SchedulerThread')))
+        if not pops_:
+            pass        # another removal idiom: the shape clause above speaks
+        elif not keeps_:
+            out.append(bad(R, key, 'threads are popped from the table but their join handles are not collected', fn=dp.name))
+        else:
+            loose = []
+            for pb, pt in pops_:
+                e_ = result_edges(dp, pb)
+                some_ = edge_for(e_, OPTION, 'Some') if e_ else pt['target']
+                if some_ is None:
+                    some_ = pt['target']
+                stops = set(b for b, _ in pops_) | set(dp.exits())
+                if some_ is not None and not dp.must_pass(some_, stops, keeps_):
+                    loose.append(pb)
+            if loose:
+                out.append(bad(R, key, 'a thread can be popped from the table without its join handle being kept (e.g. only idle threads are joined): the detached thread keeps taking jobs after despawn has returned, above the maximum and uncounted', loc=dp.loc(loose[0]), fn=dp.name))
+            else:
+                out.append(ok(R, key, 'every popped thread\'s handle is pushed onto the collection that is joined', fn=dp.name))
     # every handle taken out of the table is joined: the joining iteration is total (a short-circuiting adaptor or an early exit drops the
     # remaining handles unjoined, i.e. detaches pool threads that are still running)
     if dp:
